@@ -339,6 +339,47 @@ Definition p_check (settled : bool) (tr : list label) : list N :=
 
 Record scase := { sc_trace : list label; sc_settled : bool }.
 
+(* ---------- forwarder's run(): ctx cancelled -> listeners closed -> Shutdown(timeout) -> Close on error
+   -> idle upstream connections closed -> Run returns the context's error.  Observed from outside
+   (no wrappers: Run uses the proxy's own listeners). ---------- *)
+Record rcase := {
+  r_timeout : Z;          (* configured shutdown timeout, ms *)
+  r_elapsed : Z;          (* from the cancel to the return of Run, ms *)
+  r_err_ctx : bool;       (* Run returned the cancelled context's error *)
+  r_refused : bool;       (* a connection attempt after the cancel was refused / reset without service *)
+  r_inflight : bool;      (* an exchange was at the origin when the context was cancelled *)
+  r_origin_answers : Z;   (* the origin answered this long after the cancel (ms); negative = never *)
+  r_idle_conn : bool;     (* an idle keep-alive client connection existed *)
+  r_late_sent : bool;     (* ... and its client sent another request after the cancel *)
+  r_resp_full : bool;     (* the in-flight client received its complete response *)
+  r_resp_close : bool;    (* ... with Connection: close *)
+  r_clients_eof : bool;   (* every client socket was closed by the time Run returned (+ slack) *)
+  r_late_served : bool;   (* a request sent on an idle connection after the cancel was answered *)
+  r_final_cnt : Z;        (* open-connection counter after Run returned and the origin had answered *)
+  r_upstream_closed : bool; (* the idle upstream connection to the origin was closed (checked when no exchange was in flight) *)
+  r_tol : Z
+}.
+
+(* codes: 1 Run did not return the context's error; 2 a new connection was served; 3 an exchange that
+   reached an origin answering within the timeout was not completed in full with Connection: close;
+   4 Run returned before the drain although nothing forced it / later than timeout + tolerance;
+   5 a client socket was left open; 6 the counter did not return to zero; 7 a request sent after the
+   cancel was served; 8 Run returned early although an idle connection was never closed by its client
+   nor woken by a request (must wait for the timeout); 9 idle upstream connections were not closed *)
+Definition rcase_codes (r : rcase) : list N :=
+  let drains := r_inflight r && (0 <=? r_origin_answers r) && (r_origin_answers r + r_tol r <? r_timeout r) in
+  let blocked := (r_idle_conn r && negb (r_late_sent r)) || (r_inflight r && negb drains) in
+  (if r_err_ctx r then [] else [1%N]) ++
+  (if r_refused r then [] else [2%N]) ++
+  (if drains && negb (r_resp_full r && r_resp_close r) then [3%N] else []) ++
+  (if r_timeout r + r_tol r <? r_elapsed r then [4%N] else []) ++
+  (if r_clients_eof r then [] else [5%N]) ++
+  (if r_final_cnt r =? 0 then [] else [6%N]) ++
+  (if r_late_served r then [7%N] else []) ++
+  (if blocked && (r_elapsed r <? r_timeout r - r_tol r) then [8%N] else []) ++
+  (if r_upstream_closed r || r_inflight r then [] else [9%N]).
+Definition rcase_prop_ok (r : rcase) : bool := match rcase_codes r with [] => true | _ => false end.
+
 (* the checker used on recorded runs: only observable labels, and accepted by the search *)
 Definition accepts_visible (tr : list label) : bool :=
   forallb (fun l => negb (is_tau l)) tr && accepts_f tr.
